@@ -1,6 +1,131 @@
-(* Props/C44.v -- placeholder while the correspondence is brought up *)
+(* Props/C44.v -- Option updates are transactional, typed and survive a config round-trip.
+   Statements only; each is closed by [exact] of a lemma proved in Proofs/OptManager*.v.
+   Model: Model/OptManager.v (OptManager.add_option / update_known + rollback / update / update_defer /
+   __setattr__ / reset / subscribe / changed.connect / set / process_deferred, _Option incl. __deepcopy__,
+   typecheck.check_option_type, _parse_setval).  Every theorem quantifies over
+     behave : listener id -> state (options, deferred, whole notification log) -> updated set -> accept?
+              i.e. ALL listener behaviours, stateful ones included (a listener either returns or raises OptionsError);
+     vt, vu : the code variant (false/false = unchanged code; true = fixes/C44-validate-before-assign.diff);
+     ops    : ALL histories of calls, failed calls included ([run] goes on after an exception).
+   Definitions used: [restored d1 d2] = same option names in the same order, same types and defaults, and every
+   current value is == (Python equality, [py_eq]) to the previous one; [C44_py_eq_meaning] says what == allows.
+   [shows sn U e] = e is a notification in which the listener saw the option values sn and the updated-set U.
+   [last_seen l log] = the option values listener l saw in its most recent notification.
+   [updateish] = update_known, update, update_defer, __setattr__, set, process_deferred.
+
+   Three findings make the full statement false for the unchanged code (each has _refuted + _partial):
+   - typeerror-partial-assign: a TypeError raised for a later kwarg leaves the earlier kwargs assigned;
+   - unknown-option-partial-assign: update() raises KeyError for an unknown name after assigning the known ones;
+     guard [atomic_guard vt vu e]: the error is not a TypeError (unless vt) and not a KeyError (unless vu), i.e.
+     exactly the errors that remain once the two findings are excluded (OptionsError, NotImplementedError);
+   - renotify-aborted: a listener that refuses the re-notification of a rollback cuts the signal short, so later
+     listeners keep the rejected values; guard: every notification newer than the .errored marker was accepted.
+   The config round-trip clause (ruamel.yaml) is not modelled; it is checked on the real code by the oracle. *)
 From Coq Require Import List Bool NArith ZArith.
-From MV Require Import Base.Bytes Model.OptManager.
-Theorem C44_placeholder : check_option_type (VBool true) (TBase BInt) = true.
-Proof. reflexivity. Qed.
-Print Assumptions C44_placeholder.
+From MV Require Import Base.Bytes Model.OptManager Proofs.OptManagerBase Proofs.OptManagerMain.
+Import ListNotations.
+
+(* Typed: after any history, every option holds a value (and a default) of its declared type. *)
+Theorem C44_always_typed : forall behave vt vu ops n o,
+  dget n (options (run behave vt vu ops init)) = Some o ->
+  check_option_type (current o) (otype o) = true /\ check_option_type (odefault o) (otype o) = true.
+Proof. exact always_typed. Qed.
+Print Assumptions C44_always_typed.
+
+(* Transactional (partial, guard = complement of the two partial-assign findings): a rejected update-like
+   call leaves every option at its previous value, from ANY well-typed-or-not state s. *)
+Theorem C44_rejected_restores_partial : forall behave vt vu o s s' e,
+  updateish o = true -> step behave vt vu o s = (s', RErr e) -> atomic_guard vt vu e ->
+  restored (options s) (options s').
+Proof. exact rejected_restores. Qed.
+Print Assumptions C44_rejected_restores_partial.
+
+(* With the repair (vt = vu = true) the guard is vacuous: every rejected update restores. *)
+Theorem C44_rejected_restores_repaired : forall behave o s s' e,
+  updateish o = true -> step behave true true o s = (s', RErr e) -> restored (options s) (options s').
+Proof. exact rejected_restores_repaired. Qed.
+Print Assumptions C44_rejected_restores_repaired.
+
+(* FINDING typeerror-partial-assign (unchanged code): update(o0=5, o1=7) with o1 a str option raises TypeError
+   and o0 went from 0 to 5. *)
+Theorem C44_rejected_restores_refuted_typeerror :
+  exists kw s', let s := run always_ok false false two_options init in
+    step always_ok false false (Update kw) s = (s', RErr ETypeError)
+    /\ lookup (options s) 0%N = Some (VInt 0) /\ lookup (options s') 0%N = Some (VInt 5).
+Proof. exact typeerror_refuted. Qed.
+Print Assumptions C44_rejected_restores_refuted_typeerror.
+
+(* FINDING unknown-option-partial-assign (unchanged code): update(o0=5, o9=1) raises KeyError, o0 is 5. *)
+Theorem C44_rejected_restores_refuted_keyerror :
+  exists kw s', let s := run always_ok false false two_options init in
+    step always_ok false false (Update kw) s = (s', RErr EKeyError)
+    /\ lookup (options s) 0%N = Some (VInt 0) /\ lookup (options s') 0%N = Some (VInt 5).
+Proof. exact keyerror_refuted. Qed.
+Print Assumptions C44_rejected_restores_refuted_keyerror.
+
+(* What == between the previous and the restored value means: identical, or True/False versus 1/0
+   (_Option.__deepcopy__ drops a value that == the default, so True stored in an int option with default 1
+   comes back as 1). *)
+Theorem C44_py_eq_meaning : forall a b, py_eq a b = true -> a = b \/ bool_int_mix a b.
+Proof. exact py_eq_spec. Qed.
+Print Assumptions C44_py_eq_meaning.
+
+(* A failed process_deferred keeps the deferred values. *)
+Theorem C44_deferred_kept_partial : forall behave vt vu s s' e,
+  process_deferred behave vt vu s = (s', RErr e) -> atomic_guard vt vu e -> deferred s' = deferred s.
+Proof. exact process_deferred_failed_keeps_deferred. Qed.
+Print Assumptions C44_deferred_kept_partial.
+
+(* Listeners (partial, guard = complement of renotify-aborted): when an update-like call is rejected by a
+   listener, and every re-notification (the events newer than the .errored marker) was accepted, then every
+   listener that was notified during the call has last seen exactly the restored values. *)
+Theorem C44_renotified_partial : forall behave vt vu o s s',
+  updateish o = true -> step behave vt vu o s = (s', RErr EOptionsError) ->
+  exists delta, log s' = delta ++ log s /\
+    (forallb ev_ok (newer_than_errored delta) = true ->
+     forall l, In l (listeners delta) -> last_seen l (log s') = Some (snapshot (options s'))).
+Proof. exact rejected_renotifies. Qed.
+Print Assumptions C44_renotified_partial.
+
+(* FINDING renotify-aborted: receivers 0 and 1; update(o0=9) is accepted by 0, refused by 1; on the
+   re-notification 0 refuses, so 1 has last seen o0 = 9 although o0 is 0 again. *)
+Theorem C44_renotified_refuted :
+  exists kw s' sn, let s := run fussy false false fussy_setup init in
+    step fussy false false (Update kw) s = (s', RErr EOptionsError)
+    /\ last_seen 1%N (log s') = Some sn
+    /\ sn = [(0%N, VInt 9)] /\ snapshot (options s') = [(0%N, VInt 0)].
+Proof. exact renotify_refuted. Qed.
+Print Assumptions C44_renotified_refuted.
+
+(* Accepted: update_known that returns normally (a) returns exactly the unknown kwargs, (b) changes nothing if no
+   kwarg is known, otherwise (c) notifies every interested listener (subscribers whose option set meets U, then the
+   direct receivers) exactly once, in order, all accepting, each seeing the NEW values and exactly the set U of
+   assigned names, (d) every option named in kwargs holds the (last) value given, all others are untouched,
+   (e) U is exactly the set of known kwarg names, without duplicates. *)
+Theorem C44_accepted_notifies : forall behave vt kw s s' unknown,
+  update_known behave vt kw s = (s', UOk unknown) ->
+  let known := filter (is_known (options s)) kw in
+  let U := set_of (map fst known) in
+  unknown = filter (fun p => negb (is_known (options s) p)) kw
+  /\ (known = [] -> s' = s)
+  /\ (known <> [] -> exists evs, log s' = evs ++ log s
+        /\ rev (listeners evs) = targets s U
+        /\ forallb ev_ok evs = true
+        /\ Forall (shows (snapshot (options s')) U) evs)
+  /\ (forall n, lookup (options s') n =
+        match dget n (rev known) with Some v => Some v | None => lookup (options s) n end)
+  /\ (forall n, In n U <-> In n (map fst known)) /\ NoDup U.
+Proof. exact accepted_notifies. Qed.
+Print Assumptions C44_accepted_notifies.
+
+(* Non-vacuity: a listener that refuses o0 = 9; update(o0=9) from o0 = 3 is rejected, o0 is 3 afterwards, four
+   events were logged (accept of 3 earlier, refusal, .errored, re-notification) and the listener last saw 3. *)
+Theorem C44_nonvacuous :
+  exists s', let s := run picky false false
+                        [AddOption 0%N (TBase BInt) (VInt 0); Connect 7%N; Update [(0%N, VInt 3)]] init in
+    step picky false false (Update [(0%N, VInt 9)]) s = (s', RErr EOptionsError)
+    /\ lookup (options s) 0%N = Some (VInt 3) /\ lookup (options s') 0%N = Some (VInt 3)
+    /\ length (log s') = 4%nat
+    /\ last_seen 7%N (log s') = Some [(0%N, VInt 3)].
+Proof. exact nonvacuous. Qed.
+Print Assumptions C44_nonvacuous.
